@@ -63,31 +63,95 @@ def req_line(ctor, op):
 
 
 # ----------------------------------------------------------- implementation side
+# constructors ("ctor"):
+#   ("F", next, h, w) / ("I", next, H, W)   positional public constructor after `next` bool_var() calls
+#   ("X", h, w, a, b, c, d)                 BoolGridFrame over caller-built arrays of shapes (a, b), (c, d)
+#   ("Fv", next, h, w, form) / ("Iv", ...)  same frame as F / I, built through another call form:
+#        kw    every argument by keyword          none  horizontal=None, vertical=None given explicitly
+#        hz    horizontal built by the caller, vertical omitted        vt    the other way round
+#        both  both arrays built by the caller (horizontal first)      bothkw  ... everything by keyword
+FORMS = ("kw", "none", "hz", "vt", "both", "bothkw")
 
-def build(ctor):
-    """frames through the public constructors on a real Solver; returns (obj, idmap)."""
+
+def fresh(v):
+    """an int object created at run time (outside any cache of small ints / constants)"""
+    return int(str(v))
+
+
+def model_ctor(ctor):
+    if ctor[0] in ("Fv", "Iv"):
+        return (ctor[0][0],) + tuple(ctor[1:4])
+    return ctor
+
+
+def ctor_class(ctor):
+    return "I" if ctor[0] in ("I", "Iv") else "F"
+
+
+def build3(ctor):
+    """frames through the public constructors on a real Solver; returns (obj, solver, arrays given by the caller)."""
     from cspuz import Solver
     from cspuz.grid_frame import BoolGridFrame, BoolInnerGridFrame
     s = Solver()
-    if ctor[0] == "F":
+    given = []
+    if ctor[0] in ("F", "I"):
         for _ in range(ctor[1]):
             s.bool_var()
-        o = BoolGridFrame(s, ctor[2], ctor[3])
-    elif ctor[0] == "I":
-        for _ in range(ctor[1]):
+        cls = BoolGridFrame if ctor[0] == "F" else BoolInnerGridFrame
+        o = cls(s, fresh(ctor[2]), fresh(ctor[3]))
+    elif ctor[0] in ("Fv", "Iv"):
+        _, nx, h, w, form = ctor
+        for _ in range(nx):
             s.bool_var()
-        o = BoolInnerGridFrame(s, ctor[2], ctor[3])
+        if ctor[0] == "Fv":
+            cls, hs, vs = BoolGridFrame, (h + 1, w), (h, w + 1)
+        else:
+            cls, hs, vs = BoolInnerGridFrame, (h - 1, w), (h, w - 1)
+        h, w = fresh(h), fresh(w)
+        if form == "kw":
+            o = cls(width=w, height=h, solver=s)
+        elif form == "none":
+            o = cls(s, h, w, None, None)
+        elif form == "hz":
+            hz = s.bool_array(hs)
+            given = [("h", hz)]
+            o = cls(s, h, w, hz)
+        elif form == "vt":
+            vt = s.bool_array(vs)
+            given = [("v", vt)]
+            o = cls(s, h, w, vertical=vt)
+            # the model allocates horizontal first: rename the ids accordingly
+            nh, nv = hs[0] * hs[1], vs[0] * vs[1]
+            rm = {}
+            for k in range(nv):
+                rm[nx + k] = nx + nh + k
+            for k in range(nh):
+                rm[nx + nv + k] = nx + k
+            s._c14_remap = rm
+        else:
+            hz = s.bool_array(hs)
+            vt = s.bool_array(vs)
+            given = [("h", hz), ("v", vt)]
+            o = cls(s, h, w, hz, vt) if form == "both" else cls(vertical=vt, horizontal=hz, width=w, height=h, solver=s)
     else:
         _, h, w, a, b, c, d = ctor
         hz = s.bool_array((a, b))
         vt = s.bool_array((c, d))
+        given = [("h", hz), ("v", vt)]
         o = BoolGridFrame(s, h, w, horizontal=hz, vertical=vt)
-    return o, s
+    return o, s, given
+
+
+def build(ctor):
+    return build3(ctor)[:2]
 
 
 def _ids(s, seq):
+    rm = getattr(s, "_c14_remap", None)
     idx = {id(v): v.id for v in s.variables}
-    return tuple(idx[id(e)] for e in seq)
+    if rm is None:
+        return tuple(idx[id(e)] for e in seq)
+    return tuple(rm.get(idx[id(e)], idx[id(e)]) for e in seq)
 
 
 def _dump_arr(s, a):
@@ -102,14 +166,33 @@ def _dump(s, o):
     return (tag, (o.height, o.width), _dump_arr(s, o.horizontal), _dump_arr(s, o.vertical))
 
 
+# call forms of cell_neighbors / vertex_neighbors -> the model's form (Frame.v nargs)
+ARG_FORM = {"t": "t", "2": "2", "i": "i", "ti": "ti", "l": "t", "g": "t", "k": "2", "kt": "t", "li": "ti"}
+
+
 def _args(a):
-    if a[0] == "t":
-        return ((a[1], a[2]),)
-    if a[0] == "2":
-        return (a[1], a[2])
-    if a[0] == "i":
-        return (a[1],)
-    return ((a[1], a[2]), a[3])
+    """(positional, keyword) arguments of one neighbour-accessor call"""
+    k = a[0]
+    v = [fresh(x) for x in a[1:]]
+    if k == "t":
+        return ((v[0], v[1]),), {}
+    if k == "2":
+        return (v[0], v[1]), {}
+    if k == "i":
+        return (v[0],), {}
+    if k == "ti":
+        return ((v[0], v[1]), v[2]), {}
+    if k == "l":       # list instead of tuple
+        return ([v[0], v[1]],), {}
+    if k == "g":       # one-shot iterator
+        return (iter((v[0], v[1])),), {}
+    if k == "k":       # keywords
+        return (), {"x": v[1], "y": v[0]}
+    if k == "kt":
+        return (), {"y": (v[0], v[1])}
+    if k == "li":
+        return ([v[0], v[1]], v[2]), {}
+    raise RuntimeError("bad args")
 
 
 def _list1d(s, r):
@@ -118,25 +201,99 @@ def _list1d(s, r):
     return ("L", _ids(s, r.data))
 
 
-def frame_op(s, f, op):
+def _take(it, k):
+    out = []
+    for e in it:
+        if len(out) >= k:
+            break
+        out.append(e)
+    return out
+
+
+def _interleaved(a, b):
+    """pull alternately from two live iterators until both are exhausted"""
+    ra, rb = [], []
+    da = db = False
+    while not (da and db):
+        if not da:
+            try:
+                ra.append(next(a))
+            except StopIteration:
+                da = True
+        if not db:
+            try:
+                rb.append(next(b))
+            except StopIteration:
+                db = True
+    return ra, rb
+
+
+def _vandalize(raws):
+    """the caller scribbles over the containers an accessor handed out"""
+    from cspuz.array import Array1D
+    from cspuz.graph import Graph
+    for x in raws:
+        if isinstance(x, Array1D):
+            del x.data[:]
+        elif isinstance(x, list):
+            del x[:]
+        elif isinstance(x, Graph):
+            del x.edges[:]
+            for l in x.incident_edges:
+                del l[:]
+
+
+def _answer_keys(s):
+    rm = getattr(s, "_c14_remap", None) or {}
+    return ("L", tuple(sorted(rm.get(i, i) for i, b in enumerate(s.is_answer_key) if b)))
+
+
+def frame_op(s, f, op, st=None):
+    """one accessor call on frame f, result normalised to variable ids.  st (histories only): the state of the
+    caller's session -- 'kd' the dual it kept from an earlier step, 'raw' the containers handed out by this call."""
     from cspuz import graph
     from cspuz.grid_frame import BoolGridFrame, BoolInnerGridFrame
+
+    def keep(x):
+        if st is not None:
+            st.setdefault("raw", []).append(x)
+        return x
     k = op[0]
     if k == "D":
         assert type(f) is BoolGridFrame
         return _dump(s, f)
     if k == "G":
-        return ("S", _ids(s, [f[op[1], op[2]]])[0])
+        return ("S", _ids(s, [f[fresh(op[1]), fresh(op[2])]])[0])
+    if k == "Gl":
+        return ("S", _ids(s, [f[[fresh(op[1]), fresh(op[2])]]])[0])
+    if k == "Gi":
+        return ("S", _ids(s, [f[iter((fresh(op[1]), fresh(op[2])))]])[0])
     if k == "CN":
-        return _list1d(s, f.cell_neighbors(*_args(op[1:])))
+        a, kw = _args(op[1:])
+        return _list1d(s, keep(f.cell_neighbors(*a, **kw)))
     if k == "VN":
-        return _list1d(s, f.vertex_neighbors(*_args(op[1:])))
+        a, kw = _args(op[1:])
+        return _list1d(s, keep(f.vertex_neighbors(*a, **kw)))
     if k == "AE":
-        return _list1d(s, f.all_edges())
+        return _list1d(s, keep(f.all_edges()))
     if k == "IT":
         return ("L", _ids(s, list(iter(f))))
+    if k == "FOR":
+        out = []
+        for e in f:
+            out.append(e)
+        return ("L", _ids(s, out))
+    if k == "ITP":      # an iteration the caller abandons after op[1] items
+        return ("L", _ids(s, _take(iter(f), op[1])))
+    if k == "IT2":      # two iterations alive at the same time
+        ra, rb = _interleaved(iter(f), iter(f))
+        return ("L2", _ids(s, ra), _ids(s, rb))
+    if k == "HZ":       # the two arrays used as whole arrays
+        return ("L2", _ids(s, list(iter(f.horizontal))), _ids(s, list(iter(f.vertical))))
     if k == "FG":
         es, g = graph._from_grid_frame(f)
+        keep(es)
+        keep(g)
         assert len(g.incident_edges) == max(g.num_vertices, 0)
         return ("FG", g.num_vertices, _ids(s, es), tuple((a, b) for (a, b) in g.edges))
     if k == "DU":
@@ -146,11 +303,29 @@ def frame_op(s, f, op):
     if k == "DUIT":
         return ("L", _ids(s, list(iter(f.dual()))))
     if k == "DD":
-        return frame_op(s, f.dual().dual(), op[1:])
+        return frame_op(s, f.dual().dual(), op[1:], st)
+    if k == "KD":       # an accessor of the dual obtained earlier in the session
+        if st.get("kd") is None:
+            st["kd"] = f.dual()
+        return inner_op(s, st["kd"], op[1:], st)
+    if k == "AK":
+        s.add_answer_key(f)
+        return _answer_keys(s)
+    if k == "SL":
+        f.single_loop()
+        return ("U",)
+    if k == "NV":
+        s.bool_var()
+        s.int_var(fresh(0), fresh(300))
+        return ("U",)
+    if k == "M":
+        r = frame_op(s, f, op[1:], st)
+        _vandalize(st.pop("raw", []))
+        return r
     raise RuntimeError("bad op")
 
 
-def inner_op(s, i, op):
+def inner_op(s, i, op, st=None):
     from cspuz.grid_frame import BoolGridFrame, BoolInnerGridFrame
     k = op[0]
     if k == "D":
@@ -158,20 +333,155 @@ def inner_op(s, i, op):
         return _dump(s, i)
     if k == "IT":
         return ("L", _ids(s, list(iter(i))))
+    if k == "ITP":
+        return ("L", _ids(s, _take(iter(i), op[1])))
+    if k == "IT2":
+        ra, rb = _interleaved(iter(i), iter(i))
+        return ("L2", _ids(s, ra), _ids(s, rb))
+    if k == "HZ":
+        return ("L2", _ids(s, list(iter(i.horizontal))), _ids(s, list(iter(i.vertical))))
     if k == "DD":
         return _dump(s, i.dual().dual())
     if k == "DU":
         d = i.dual()
         assert type(d) is BoolGridFrame and d.solver is s
-        return frame_op(s, d, op[1:])
+        return frame_op(s, d, op[1:], st)
+    if k == "KD":
+        if st.get("kd") is None:
+            st["kd"] = i.dual()
+        return frame_op(s, st["kd"], op[1:], st)
+    if k == "AK":
+        s.add_answer_key(i)
+        return _answer_keys(s)
+    if k == "NV":
+        s.bool_var()
+        s.int_var(fresh(0), fresh(300))
+        return ("U",)
     raise RuntimeError("bad op")
+
+
+def obj_op(s, o, ctor, op, st=None):
+    return inner_op(s, o, op, st) if ctor_class(ctor) == "I" else frame_op(s, o, op, st)
 
 
 def impl_run(ctor, op):
     def f():
         o, s = build(ctor)
-        return inner_op(s, o, op) if ctor[0] == "I" else frame_op(s, o, op)
+        return obj_op(s, o, ctor, op, {})
     return vlib.guarded(f)
+
+
+def state_dump(s, o, given):
+    """the frame's two arrays (shape, data) and the arrays the caller passed to the constructor"""
+    return (_dump(s, o),) + tuple((nm, _dump_arr(s, a)) for nm, a in given)
+
+
+def run_history(ctor, script):
+    """the script's accessor calls one after the other on ONE object; per step (result, state afterwards)"""
+    r = vlib.guarded(build3, ctor)
+    if r[0] != "ok":
+        return [(r, r) for _ in script]
+    o, s, given = r[1]
+    st = {}
+    out = []
+    for op in script:
+        st.pop("raw", None)
+        res = vlib.guarded(obj_op, s, o, ctor, op, st)
+        out.append((res, vlib.guarded(state_dump, s, o, given)))
+    return out
+
+
+# ------------------------------------------------- model results for derived ops
+# The model is a pure function of the frame record: whatever was called before,
+# an accessor gives what it gives on the freshly constructed frame.
+
+def _okmap(f):
+    return lambda r: ("ok", f(r[1])) if r[0] == "ok" else r
+
+
+def reduce_op(cls, op):
+    """(op understood by the model runner, function from its parsed reply to the expected result)"""
+    k = op[0]
+    ident = lambda r: r  # noqa
+    if k == "M":
+        return reduce_op(cls, op[1:])
+    if k in ("ITP",):
+        b, post = reduce_op(cls, ("IT",))
+        n = op[1]
+        return b, (lambda r: _okmap(lambda v: ("L", v[1][:n]))(post(r)))
+    if k == "FOR":
+        return reduce_op(cls, ("IT",))
+    if k == "IT2":
+        b, post = reduce_op(cls, ("IT",))
+        return b, (lambda r: _okmap(lambda v: ("L2", v[1], v[1]))(post(r)))
+    if k == "AK":
+        b, post = reduce_op(cls, ("IT",))
+        return b, (lambda r: _okmap(lambda v: ("L", tuple(sorted(v[1]))))(post(r)))
+    if k == "HZ":
+        b, post = reduce_op(cls, ("D",))
+        return b, (lambda r: _okmap(lambda v: ("L2", v[2][1], v[3][1]))(post(r)))
+    if k in ("NV", "SL"):
+        return None, (lambda r: ("ok", ("U",)))
+    if cls == "F":
+        if k in ("Gl", "Gi"):
+            return ("G",) + tuple(op[1:]), ident
+        if k in ("CN", "VN"):
+            return (k, ARG_FORM[op[1]]) + tuple(op[2:]), ident
+        if k == "DD":
+            b, post = reduce_op("F", op[1:])
+            return (("DD",) + b if b is not None else None), post
+        if k == "KD":       # the dual of an F frame: D -> DU, IT -> DUIT, DU <frame op> -> DD <frame op>
+            j = op[1]
+            if j == "D":
+                return ("DU",), ident
+            if j == "DU":
+                b, post = reduce_op("F", op[2:])
+                return (("DD",) + b if b is not None else None), post
+            if j == "DD":
+                return ("DU",), ident
+            if j in ("IT", "ITP", "IT2", "AK"):
+                b, post = reduce_op("F", (j,) + tuple(op[2:]))
+                assert b == ("IT",)
+                return ("DUIT",), post
+            if j == "HZ":
+                return ("DU",), _okmap(lambda v: ("L2", v[2][1], v[3][1]))
+            if j == "NV":
+                return None, (lambda r: ("ok", ("U",)))
+            raise RuntimeError("bad KD op")
+        return tuple(op), ident
+    # inner frames
+    if k in ("DU", "KD"):
+        b, post = reduce_op("F", op[1:])
+        return (("DU",) + b if b is not None else None), post
+    return tuple(op), ident
+
+
+LEGEND = {
+    "D": "frame.height, frame.width, shape and data of frame.horizontal / frame.vertical",
+    "G": "frame[y, x]", "Gl": "frame[[y, x]]", "Gi": "frame[iter((y, x))]",
+    "CN": "frame.cell_neighbors(..)  (t: one tuple, 2: two ints, l: a list, g: an iterator, k / kt: keywords, i / ti / li: wrong forms)",
+    "VN": "frame.vertex_neighbors(..)  (same forms)",
+    "AE": "frame.all_edges()", "IT": "list(iter(frame))", "FOR": "for e in frame", "ITP": "an iteration abandoned after n items",
+    "IT2": "two iterations alive at the same time, pulled alternately", "HZ": "list(frame.horizontal), list(frame.vertical)",
+    "FG": "graph._from_grid_frame(frame)", "DU": "frame.dual() then the rest (alone: its arrays)", "DUIT": "list(iter(frame.dual()))",
+    "DD": "frame.dual().dual() then the rest", "KD": "the dual obtained at the first KD of the session, then the rest",
+    "AK": "solver.add_answer_key(frame); which variables are answer keys", "SL": "frame.single_loop()",
+    "NV": "solver.bool_var(); solver.int_var(0, 300)", "M": "the call that follows, after which the caller empties the containers it returned",
+}
+
+
+def legend(calls):
+    return {k: LEGEND[k] for k in sorted({t for c in calls for t in c if isinstance(t, str) and t in LEGEND})}
+
+
+def opname(op):
+    out = []
+    for t in op:
+        if isinstance(t, str) and t.isupper() or t in ("Gl", "Gi"):
+            out.append(t)
+        else:
+            break
+    return ".".join(out)
 
 
 # ------------------------------------------------------------------ generators
@@ -242,14 +552,217 @@ def gen_cases(ctx):
         yield c, op
 
 
+def far_values(n):
+    """coordinates far outside a range of length n: wrap-around candidates and ints beyond every small-int cache"""
+    return sorted({-n - 3, -n - 2, -n - 1, -n, -7, -6, n + 6, n + 7, 257, 300, -300, 2 ** 40, -2 ** 40})
+
+
+def edge_values(n):
+    """the ends of [0, n] and the first ints CPython does not cache"""
+    return sorted(v for v in {-1, 0, 1, 2, n - 1, n, n + 1, n + 2, 255, 256, 257, 258, 259} if v <= n + 2)
+
+
+BIG = [(7, 9), (9, 7), (0, 12), (12, 0), (1, 130), (130, 1), (0, 300), (300, 0)]
+
+
+def gen_cases2(ctx):
+    """second-generation inputs: far / large coordinates, other call forms, other constructor forms, larger frames"""
+    n = 5 if ctx.thorough else 4
+    for h in range(n):
+        for w in range(n):
+            c = ("F", 0, h, w)
+            for Y in far_values(2 * h):
+                for X in (-1, 0, 1, 2 * w):
+                    yield c, ("G", Y, X)
+                    yield c, ("DD", "G", Y, X)
+            for X in far_values(2 * w):
+                for Y in (-1, 0, 1, 2 * h):
+                    yield c, ("G", Y, X)
+            for y in far_values(h):
+                for x in (0, w - 1, w):
+                    yield c, ("CN", "2", y, x)
+                    yield c, ("VN", "t", y, x)
+            for x in far_values(w):
+                for y in (0, h - 1, h):
+                    yield c, ("CN", "t", y, x)
+                    yield c, ("VN", "2", y, x)
+            for y in range(-2, 2 * h + 3):
+                for x in range(-2, 2 * w + 3):
+                    yield c, ("Gl", y, x)
+                    yield c, ("Gi", y, x)
+            for y in range(-1, h + 2):
+                for x in range(-1, w + 2):
+                    for form in ("l", "g", "k", "kt"):
+                        yield c, ("CN", form, y, x)
+                        yield c, ("VN", form, y, x)
+                    yield c, ("CN", "li", y, x, 0)
+                    yield c, ("VN", "li", y, x, 0)
+            for form in FORMS:
+                for nx in (0, 3):
+                    cv = ("Fv", nx, h, w, form)
+                    for op in WHOLE + [("HZ",), ("FOR",), ("IT2",), ("ITP", 1), ("ITP", (h + 1) * w + 1)]:
+                        yield cv, op
+                    for (y, x) in ((0, 1), (1, 0), (2 * h, 2 * w - 1), (2 * h - 1, 2 * w), (1, 1), (-1, 0), (0, 2 * w + 1)):
+                        yield cv, ("G", y, x)
+                    for (y, x) in ((0, 0), (h - 1, w - 1), (h, w), (-1, 0)):
+                        yield cv, ("CN", "2", y, x)
+                        yield cv, ("VN", "t", y, x)
+    for H in range(1, n + 1):
+        for W in range(1, n + 1):
+            for form in FORMS:
+                cv = ("Iv", (H + W) % 3, H, W, form)
+                for op in [("D",), ("IT",), ("HZ",), ("DD",), ("DU", "D"), ("DU", "FG"), ("DU", "AE"), ("DU", "IT"), ("DU", "DU"),
+                           ("DU", "G", 0, 1), ("DU", "G", 1, 0), ("DU", "CN", "2", 0, 0), ("DU", "VN", "t", H - 1, W - 1)]:
+                    yield cv, op
+
+
+def gen_big(ctx):
+    """frames beyond the exhaustive scope, sizes / ids / coordinates beyond CPython's small-int cache"""
+    big = BIG + ([(16, 17), (2, 129), (129, 2), (0, 1000)] if ctx.thorough else [])
+    for (h, w) in big:
+        for nx in (0, 300):
+            c = ("F", nx, h, w)
+            for op in WHOLE + [("HZ",), ("FOR",), ("IT2",), ("ITP", (h + 1) * w + 1)]:
+                yield c, op
+            if nx:
+                continue
+            for Y in edge_values(2 * h):
+                for X in edge_values(2 * w):
+                    yield c, ("G", Y, X)
+                    yield c, ("DD", "G", Y, X)
+            for y in edge_values(h):
+                for x in edge_values(w):
+                    yield c, ("CN", "2", y, x)
+                    yield c, ("VN", "t", y, x)
+                    yield c, ("DD", "CN", "t", y, x)
+                    yield c, ("DD", "VN", "2", y, x)
+        c = ("I", 0, h + 1, w + 1)
+        for op in [("D",), ("IT",), ("DD",), ("DU", "D"), ("DU", "FG"), ("DU", "AE"), ("DU", "DU")]:
+            yield c, op
+
+
+# ------------------------------------------------------- histories on one object
+
+def whole_ops(cls, h, w):
+    """accessor calls for a session on ONE frame of h x w cells (cls F) / the inner frame of an h x w board (cls I)"""
+    if cls == "F":
+        nh = (h + 1) * w
+        ops = [("D",), ("AE",), ("M", "AE"), ("IT",), ("FOR",), ("ITP", 1), ("ITP", nh + 1), ("IT2",), ("HZ",),
+               ("FG",), ("M", "FG"), ("DU",), ("DUIT",), ("DD", "D"), ("DD", "AE"), ("DD", "IT"), ("DD", "FG"),
+               ("KD", "D"), ("KD", "IT"), ("KD", "ITP", 1), ("KD", "IT2"), ("KD", "DU", "IT"), ("KD", "DU", "AE"), ("KD", "HZ"),
+               ("NV",), ("SL",),
+               ("G", 0, 1), ("G", 1, 0), ("G", 2 * h, 2 * w - 1), ("G", -1, 0), ("Gl", 2 * h - 1, 2 * w),
+               ("CN", "2", 0, 0), ("M", "CN", "t", h - 1, w - 1), ("CN", "2", h, w),
+               ("VN", "t", 0, 0), ("M", "VN", "2", h, w), ("VN", "2", -1, 0)]
+        return ops, [("AK",), ("KD", "AK"), ("DD", "AK")]
+    H, W = h, w
+    nh = (H - 1) * W
+    ops = [("D",), ("IT",), ("ITP", 1), ("ITP", nh + 1), ("IT2",), ("HZ",), ("DD",),
+           ("DU", "D"), ("DU", "AE"), ("DU", "IT"), ("DU", "FG"), ("DU", "DU"),
+           ("KD", "D"), ("KD", "IT"), ("KD", "ITP", 1), ("KD", "IT2"), ("KD", "AE"), ("KD", "M", "AE"), ("KD", "FG"), ("KD", "M", "FG"),
+           ("KD", "DU"), ("KD", "HZ"), ("KD", "G", 1, 0), ("KD", "G", 0, 1), ("KD", "CN", "2", 0, 0), ("KD", "VN", "t", 0, 0),
+           ("NV",), ("KD", "SL")]
+    return ops, [("AK",), ("KD", "AK")]
+
+
+def session_scripts(cls, h, w, rng, n_random=3, pairs=False):
+    """scripts = lists of accessor calls; every accessor occurs at least twice, in several orders; the answer-key
+    registration (which iterates the frame, and may be done only once per variable) occurs once per script"""
+    ops, once = whole_ops(cls, h, w)
+    rev = list(reversed(ops))
+    yield "canon", ops + [once[0]] + ops
+    yield "rev", rev + [once[1]] + rev
+    yield "once-first", [once[-1]] + ops
+    for j in range(n_random):
+        sc = ops + ops
+        rng.shuffle(sc)
+        sc.insert(rng.randrange(len(sc) + 1), rng.choice(once))
+        yield "rand%d" % j, sc
+    if pairs:
+        for a in ops + once:
+            for b in ops + once:
+                if not (a in once and b in once):
+                    yield "pair", ([a, b, a] if a not in once else [a, b, b])
+
+
+def size_rng(ctx, cls, h, w):
+    import random
+    return random.Random(ctx.seed * 1000003 + (7 if cls == "F" else 11) * 100003 + h * 1009 + w)
+
+
+def gen_histories(ctx):
+    n = 5 if ctx.thorough else 4
+    for h in range(n):
+        for w in range(n):
+            rng = size_rng(ctx, "F", h, w)
+            ctors = [("F", 0, h, w), ("Fv", 2, h, w, ("both", "vt", "hz", "bothkw")[(h + w) % 4]), ("X", h, w, h + 1, w, h, w + 1)]
+            for c in ctors:
+                for nm, sc in session_scripts("F", h, w, rng, 2 if c[0] == "F" else 1, pairs=(c[0] == "F" and (h, w) in ((1, 2), (2, 1)))):
+                    yield c, nm, sc
+    for H in range(1, n + 1):
+        for W in range(1, n + 1):
+            rng = size_rng(ctx, "I", H, W)
+            for c in [("I", 0, H, W), ("Iv", 1, H, W, ("both", "vt", "hz", "kw")[(H + W) % 4])]:
+                for nm, sc in session_scripts("I", H, W, rng, 2 if c[0] == "I" else 1, pairs=(c[0] == "I" and (H, W) == (2, 3))):
+                    yield c, nm, sc
+    for (h, w) in [(7, 9), (0, 12), (12, 0), (1, 130), (130, 1)]:
+        rng = size_rng(ctx, "F", h, w)
+        for nm, sc in session_scripts("F", h, w, rng, 1):
+            yield ("F", 0, h, w), nm, sc
+        if h < 100 and w < 100:
+            for nm, sc in session_scripts("I", h + 1, w + 1, rng, 1):
+                yield ("I", 0, h + 1, w + 1), nm, sc
+
+
+def expected_state(ctor, d):
+    """what state_dump must give after any call: the constructor's arrays, untouched (d: the model's dump)"""
+    if d[0] != "ok":
+        return d
+    v = d[1]
+    form = ctor[4] if ctor[0] in ("Fv", "Iv") else ("both" if ctor[0] == "X" else "")
+    given = {"hz": ("h",), "vt": ("v",), "both": ("h", "v"), "bothkw": ("h", "v")}.get(form, ())
+    return ("ok", (v,) + tuple((nm, v[2] if nm == "h" else v[3]) for nm in given))
+
+
 def correspond(ctx):
     m = ctx.model("C14")
-    cases = list(gen_cases(ctx))
-    outs = m.batch([req_line(c, op) for (c, op) in cases])
-    for (c, op), o in zip(cases, outs):
+    cases = list(gen_cases(ctx)) + list(gen_cases2(ctx))
+    big_cases = list(gen_big(ctx))
+    hists = list(gen_histories(ctx))
+    lines = {}
+
+    def want(ctor, op):
+        base, post = reduce_op(ctor_class(ctor), op)
+        if base is None:
+            return None, post
+        ln = req_line(model_ctor(ctor), base)
+        lines.setdefault(ln, len(lines))
+        return ln, post
+    plan = [want(c, op) for (c, op) in cases]
+    big_plan = [want(c, op) for (c, op) in big_cases]
+    hplan = [([want(c, op) for op in sc], want(c, ("D",))) for (c, nm, sc) in hists]
+    order = sorted(lines, key=lines.get)
+    outs = dict(zip(order, m.batch(order)))
+
+    def expect(w):
+        ln, post = w
+        return post(parse_reply(outs[ln]) if ln is not None else None)
+    for (c, op), w in zip(cases, plan):
         ctx.count("ctor:" + c[0])
-        ctx.corr(op[0] if op[0] not in ("DD", "DU") or len(op) == 1 else op[0] + "." + op[1],
-                 (c, op), parse_reply(o), impl_run(c, op))
+        ctx.corr(opname(op), (c, op), expect(w), impl_run(c, op))
+    # histories: every step of a session on ONE object must give what the (pure) model gives, and leave
+    # the frame's arrays -- and the arrays the caller passed in -- as the constructor left them
+    for (c, nm, sc), (ws, wd) in zip(hists, hplan):
+        ctx.count("history:" + c[0] + ":" + nm)
+        exp_state = expected_state(c, expect(wd))
+        got = run_history(c, sc)
+        for k, (op, w) in enumerate(zip(sc, ws)):
+            ok = ctx.corr("hist:" + opname(op), (c, tuple(sc[:k + 1])), (expect(w), exp_state), got[k])
+            if not ok:
+                break   # later steps of a session that already went wrong add nothing
+    for (c, op), w in zip(big_cases, big_plan):
+        ctx.count("ctor:" + c[0])
+        ctx.corr(opname(op), (c, op), expect(w), impl_run(c, op))
     ctx.exhaustive = True
 
 
@@ -275,6 +788,10 @@ def _sk(sg):
 def _corners(c):
     y, x = c
     return {(y, x), (y, x + 1), (y + 1, x), (y + 1, x + 1)}
+
+
+def name2(vs):
+    return [getattr(e, "id", repr(e)) for e in vs]
 
 
 def _same(objs_a, objs_b):
@@ -367,6 +884,23 @@ def check_frame(ctx, tag, f, h, w, anchor=None, depth=0):
         bad("all_edges", "all_edges does not enumerate every segment exactly once")
     if it[0] != "ok" or ae[0] != "ok" or [id(v) for v in it[1]] != [id(v) for v in ae[1]]:
         bad("iter", "iteration order differs from all_edges")
+    # every iteration enumerates the edges, not only the first one / the only one alive
+    if ae[0] == "ok":
+        want = [id(v) for v in ae[1]]
+        r = vlib.guarded(lambda: _interleaved(iter(f), iter(f)))
+        if r[0] != "ok" or [id(v) for v in r[1][0]] != want or [id(v) for v in r[1][1]] != want:
+            bad("iter-concurrent", "two iterations over the frame that are alive at the same time do not both enumerate all_edges()",
+                got=r[1] if r[0] != "ok" else [name2(r[1][0]), name2(r[1][1])], expected=name2(ae[1]))
+        r = vlib.guarded(lambda: (_take(iter(f), 1), list(iter(f)), [v for v in f]))
+        if r[0] != "ok" or [id(v) for v in r[1][0]] != want[:1] or [id(v) for v in r[1][1]] != want or [id(v) for v in r[1][2]] != want:
+            bad("iter-after-break", "an iteration that follows an abandoned iteration does not enumerate all_edges()",
+                got=r[1] if r[0] != "ok" else [name2(x) for x in r[1]], expected=name2(ae[1]))
+        r = vlib.guarded(lambda: list(f.all_edges().data))
+        if r[0] != "ok" or [id(v) for v in r[1]] != want:
+            bad("all_edges-again", "a second all_edges() differs from the first", got=r[1] if r[0] != "ok" else name2(r[1]), expected=name2(ae[1]))
+        r = vlib.guarded(lambda: (list(iter(f.horizontal)), list(iter(f.vertical))))
+        if r[0] != "ok" or not _same(r[1][0] + r[1][1], var.values()) or len(r[1][0]) != (h + 1) * w:
+            bad("arrays-iter", "horizontal / vertical used as whole arrays do not hold exactly the frame's segments")
     # _from_grid_frame: edge k joins the lattice points its variable's segment joins
     ctx.prop_case("from_grid_frame", (tag, h, w, depth))
     r = vlib.guarded(lambda: graph._from_grid_frame(f))
@@ -438,6 +972,14 @@ def check_inner(ctx, tag, i, H, W, anchor=None, depth=0):
     it = vlib.guarded(lambda: list(iter(i)))
     if it[0] != "ok" or not _same(it[1], here.values()):
         bad("iter", "iteration over the inner frame does not enumerate every border once")
+    elif it[0] == "ok":
+        want = [id(v) for v in it[1]]
+        r = vlib.guarded(lambda: _interleaved(iter(i), iter(i)))
+        if r[0] != "ok" or [id(v) for v in r[1][0]] != want or [id(v) for v in r[1][1]] != want:
+            bad("iter-concurrent", "two iterations over the inner frame that are alive at the same time do not both enumerate its borders")
+        r = vlib.guarded(lambda: (_take(iter(i), 1), list(iter(i))))
+        if r[0] != "ok" or [id(v) for v in r[1][0]] != want[:1] or [id(v) for v in r[1][1]] != want:
+            bad("iter-after-break", "an iteration over the inner frame that follows an abandoned one does not enumerate its borders")
     r = vlib.guarded(lambda: i.dual())
     if r[0] != "ok" or type(r[1]) is not BoolGridFrame:
         return bad("dual", "dual() of an inner frame did not return a BoolGridFrame")
@@ -467,6 +1009,98 @@ def check_involution(ctx, tag, o):
         bad("dual_involutive", "dual of dual is not the original frame", height=[o.height, oo.height], width=[o.width, oo.width])
 
 
+def session_failure(ctor, calls):
+    """run the calls on ONE object; None if the LAST call behaves, else what is wrong with it:
+    ("result", on this frame, on an unused frame) or ("arrays", state before the session, state after the call)"""
+    o, s, given = build3(ctor)
+    st = {}
+    snap = vlib.guarded(state_dump, s, o, given)
+    for op in calls[:-1]:
+        st.pop("raw", None)
+        vlib.guarded(obj_op, s, o, ctor, op, st)
+    st.pop("raw", None)
+    before = vlib.guarded(state_dump, s, o, given)
+    used = vlib.guarded(obj_op, s, o, ctor, calls[-1], st)
+    o2, s2, _ = build3(ctor)
+    unused = vlib.guarded(obj_op, s2, o2, ctor, calls[-1], {})
+    if used != unused:
+        return ("result", used, unused)
+    now = vlib.guarded(state_dump, s, o, given)
+    if now != snap and before == snap:
+        return ("arrays", snap, now)
+    return None
+
+
+def shrink_session(ctor, calls, kind):
+    """drop calls that are not needed for the last call to go wrong in the same way (greedy, one at a time)"""
+    calls = list(calls)
+    i = 0
+    budget = 400
+    while i < len(calls) - 1 and budget > 0:
+        budget -= 1
+        cand = calls[:i] + calls[i + 1:]
+        f = vlib.guarded(session_failure, ctor, cand)
+        if f[0] == "ok" and f[1] is not None and f[1][0] == kind:
+            calls = cand
+        else:
+            i += 1
+    return calls
+
+
+def check_history(ctx, tag, ctor, nm, script):
+    """One frame object lives through the whole script.  Every call must give exactly what the same call gives on
+    a frame nothing has been done with (built the same way on a fresh Solver, so variable ids are comparable),
+    and must leave the frame's arrays -- and arrays the caller passed to the constructor -- as they were.
+    Returns the used object (None when something already failed)."""
+    def bad(key, what, **detail):
+        detail.update({"frame": tag, "ctor": list(ctor), "script": nm})
+        ctx.violation("%s:%s" % (tag, key), what, detail)
+
+    def show(calls):
+        return [" ".join(str(t) for t in x) for x in calls]
+
+    r = vlib.guarded(build3, ctor)
+    if r[0] != "ok":
+        bad("ctor", "constructor raised", got=r[1])
+        return None
+    o, s, given = r[1]
+    st = {}
+    snap = vlib.guarded(state_dump, s, o, given)
+    if snap[0] != "ok":
+        bad("arrays", "the frame's arrays cannot be read", got=snap[1])
+        return None
+    for k, op in enumerate(script):
+        ctx.prop_case("history:" + opname(op), (tag, ctor, nm, k, tuple(op)))
+        st.pop("raw", None)
+        used = vlib.guarded(obj_op, s, o, ctor, op, st)
+        o2, s2, _ = build3(ctor)
+        unused = vlib.guarded(obj_op, s2, o2, ctor, op, {})
+        now = vlib.guarded(state_dump, s, o, given) if used == unused else None
+        if used != unused or now != snap:
+            kind = "result" if used != unused else "arrays"
+            calls = script[:k + 1]
+            if not any(v["key"] == "%s:%s:%s" % (tag, "history" if kind == "result" else "history-arrays", opname(op)) for v in ctx.violations):
+                small = shrink_session(ctor, calls, kind)
+                f = vlib.guarded(session_failure, ctor, small)
+                if f[0] == "ok" and f[1] is not None and f[1][0] == kind:
+                    calls = small
+                    if kind == "result":
+                        used, unused = f[1][1], f[1][2]
+                    else:
+                        now = f[1][2]
+            if kind == "result":
+                bad("history:" + opname(op), "the last call of this session on ONE frame object gives a different result than the same call on a frame nothing has been done with",
+                    calls=show(calls), on_unused_frame=repr(unused)[:600], on_this_frame=repr(used)[:600], legend=legend(calls))
+            else:
+                bad("history-arrays:" + opname(op), "the last call of this session changed frame.horizontal / frame.vertical (shape or data) or an array the caller passed to the constructor",
+                    calls=show(calls), before=repr(snap)[:600], after=repr(now)[:600], legend=legend(calls))
+            return None
+    return o
+
+
+PAIR_SIZES = {"F": ((1, 1), (2, 3), (0, 2), (2, 0)), "I": ((2, 3), (3, 1))}
+
+
 def search_one(ctx, cls, h, w):
     r = vlib.guarded(lambda: build((cls, 0, h, w)))
     tag = "%s%dx%d" % (cls, h, w)
@@ -479,6 +1113,42 @@ def search_one(ctx, cls, h, w):
     else:
         check_inner(ctx, tag, o, h, w)
     check_involution(ctx, tag, o)
+    # the same object once more: the geometric oracle must hold on a frame that has been through all of it
+    n0 = len(ctx.violations)
+    if cls == "F":
+        check_frame(ctx, tag + "~again", o, h, w)
+    else:
+        check_inner(ctx, tag + "~again", o, h, w)
+    check_involution(ctx, tag + "~again", o)
+    for v in ctx.violations[n0:]:
+        v["detail"]["note"] = "second pass of the same checks over the same frame object (the first pass found nothing at this place)"
+    small = h <= 6 and w <= 6
+    # other ways of calling the constructor give the same geometry
+    if small or (h, w) in ((7, 9), (1, 130)):
+        for form in FORMS:
+            ctor = (cls + "v", 1 + (h + w) % 2 * 300, h, w, form)
+            r = vlib.guarded(build, ctor)
+            if r[0] != "ok":
+                ctx.violation("%s~%s:ctor" % (tag, form), "constructor raised", {"frame": tag, "ctor": list(ctor), "got": r[1]})
+                continue
+            if cls == "F":
+                check_frame(ctx, "%s~%s" % (tag, form), r[1][0], h, w)
+            else:
+                check_inner(ctx, "%s~%s" % (tag, form), r[1][0], h, w)
+            check_involution(ctx, "%s~%s" % (tag, form), r[1][0])
+    # sessions on one object
+    rng = size_rng(ctx, cls, h, w)
+    ctors = [(cls, 0, h, w), (cls + "v", 2, h, w, "both"), (cls + "v", 0, h, w, "vt")]
+    if cls == "F":
+        ctors.append(("X", h, w, h + 1, w, h, w + 1))
+    for ci, ctor in enumerate(ctors if small else ctors[:1]):
+        for nm, sc in session_scripts(cls, h, w, rng, (3 if small else 1) if ci == 0 else 1, pairs=(ci == 0 and (h, w) in PAIR_SIZES[cls])):
+            u = check_history(ctx, tag, ctor, nm, sc)
+            if u is not None and nm in ("canon", "rand0") and ci < 2:
+                if cls == "F":
+                    check_frame(ctx, "%s~used-%s" % (tag, nm), u, h, w)
+                else:
+                    check_inner(ctx, "%s~used-%s" % (tag, nm), u, h, w)
 
 
 def search(ctx):
@@ -492,6 +1162,12 @@ def search(ctx):
     for (h, w) in ([(1, 9), (9, 1), (0, 8), (8, 0), (7, 8)] if not ctx.thorough else [(1, 12), (12, 1), (0, 11), (11, 0), (9, 10), (10, 9)]):
         search_one(ctx, "F", h, w)
         search_one(ctx, "I", h + 1, w + 1)
+    # beyond the exhaustive scope: larger boards, degenerate long ones, and sizes whose (doubled) coordinates,
+    # vertex numbers and variable ids leave CPython's small-int cache (> 256)
+    for (h, w) in [(7, 9), (9, 7), (0, 13), (13, 0), (10, 10), (1, 130), (130, 1), (0, 300), (300, 0)] + ([(16, 17), (2, 129), (129, 2)] if ctx.thorough else []):
+        search_one(ctx, "F", h, w)
+        if h <= 20 and w <= 20:
+            search_one(ctx, "I", h + 1, w + 1)
 
 
 def replay(ctx, rp):
